@@ -24,7 +24,8 @@ LineOK(i) ==
   /\ e.work <= C!Bound(e.fam, e.n, e.k)
   /\ \A j \in Prev(i) :
        LET p == TraceLog[j] IN
-       /\ (p.n = e.n => p.work = e.work)                       \* same size, different k: same work
+       \* same size, different number of implementers: the same work (up to a small constant)
+       /\ (p.n = e.n => (e.work <= p.work + 4 /\ p.work <= e.work + 4))
        /\ (p.n + 1 = e.n /\ p.k = e.k /\ p.n >= 4 => e.work <= 3 * p.work + 50)
 
 TInit == l = 1
